@@ -177,6 +177,14 @@ show("tally", lambda: (cee.tally([1, 2, 3]), cee.tally([1, 2, 3], 10), cee.tally
 show("filltext", lambda: cee.fillText())
 rec = cee.Rec(2, 7, 1.5)
 show("rec", lambda: (rec.id, rec.serial, rec.w, cee.recWeight(rec), cee.Rec(id=3, serial=1, w=2.0).serial, cee.recWeight(cee.Rec(4, 5, 0.5))))
+ser = cee.Ser(3, [1, 2, 3])
+show("ser", lambda: (ser.n, ser.data, cee.serSum(ser), cee.serShift(ser, 10), ser.data, cee.serSum(ser)))
+ser2 = cee.Ser(data=(5, 6, 7, 8), n=4)
+def ser_set():
+    ser2.data = [1, 1, 1, 1]
+    cee.serShift(step=2, s=ser2)
+    return (ser2.data, cee.serSum(ser2))
+show("ser-set", ser_set)
 show("over-kw", lambda: (cee.over(a=7), cee.over(a=0.5), cee.tmpl(a=2)))
 show("bad-add", lambda: a.add("x"))
 show("bad-ctor", lambda: cee.Cls())
@@ -197,7 +205,7 @@ def python_scenario(args):
     y["options"] = dict({"wrap_fortran": False, "wrap_c": False, "wrap_python": True, "wrap_lua": False, "PY_array_arg": "list"}, **more)
     # left out: by-value class result, const class reference result, class-pointer free function, nested namespace (they do not build or crash: C05 / known findings),
     # the const / non-const pair (no documented rule says which one Python reaches)
-    y["declarations"] = [d for d in y["declarations"] if not d["decl"].startswith(("Cls valCls", "void takes", "int byVal", "const Cls &crefCls"))]
+    y["declarations"] = [d for d in y["declarations"] if not d["decl"].startswith(("Cls valCls", "void takes", "int byVal", "const Cls &crefCls", "int sumRank"))]
     for d in y["declarations"]:
         if d["decl"] == "namespace ns":
             d["declarations"] = [x for x in d["declarations"] if not x["decl"].startswith("namespace")]
@@ -206,7 +214,14 @@ def python_scenario(args):
     # a struct that Python sees as a class (PY_struct_arg: class): constructor over the members, one of them read-only
     y["declarations"].append({"decl": "struct Rec { int id; int serial +readonly; double w; };", "options": {"PY_struct_arg": "class"}})
     y["declarations"].append({"decl": "double recWeight(const Rec *r)", "options": {"PY_struct_arg": "class"}})
-    rec_hpp = "\nstruct Rec { int id; int serial; double w; };\ndouble recWeight(const Rec *r);\n"
+    # and one with a pointer member: what Python reads is what the C array holds now (the library writes through the pointer)
+    y["declarations"].append({"decl": "struct Ser { int n; int *data +dimension(n); };", "options": {"PY_struct_arg": "class"}})
+    y["declarations"].append({"decl": "int serSum(const Ser *s)", "options": {"PY_struct_arg": "class"}})
+    y["declarations"].append({"decl": "void serShift(const Ser *s, int step)", "options": {"PY_struct_arg": "class"}})
+    rec_hpp = ("\nstruct Rec { int id; int serial; double w; };\ndouble recWeight(const Rec *r);\nstruct Ser { int n; int *data; };\nint serSum(const Ser *s);\n"
+               "void serShift(const Ser *s, int step);\n")
+    ser_cpp = ('\nint serSum(const Ser *s) { int t = 0; vt_txt("RECV serSum n="); vt_i(s->n); vt_txt("\\n"); for (int i = 0; i < s->n; i++) t += s->data[i]; return t; }\n'
+               'void serShift(const Ser *s, int step) { vt_txt("RECV serShift n="); vt_i(s->n); vt_txt(" step="); vt_i(step); vt_txt("\\n"); for (int i = 0; i < s->n; i++) s->data[i] += step; }\n')
     rec_cpp = ('\ndouble recWeight(const Rec *r) { vt_txt("RECV recWeight id="); vt_i(r->id); vt_txt(" serial="); vt_i(r->serial); vt_txt(" w="); vt_d(r->w); vt_txt("\\n"); return r->w * 2; }\n')
     os.makedirs(workdir)
     r, tree = gen.gen_tree(workdir, y, keep=True)
@@ -215,7 +230,7 @@ def python_scenario(args):
         return [("generate", "scenario", "%s %s: %s" % (r.status, r.exc, (r.msg or "")[:300]))], 0
     out = os.path.join(workdir, "out")
     open(os.path.join(out, "cee.hpp"), "w").write(c02.SCEN_HPP.replace("#endif", rec_hpp + "#endif"))
-    open(os.path.join(out, "subject.cpp"), "w").write(c02.SCEN_CPP + rec_cpp)
+    open(os.path.join(out, "subject.cpp"), "w").write(c02.SCEN_CPP + rec_cpp + ser_cpp)
     open(os.path.join(out, "driver.py"), "w").write(PSCEN_DRIVER)
     try:
         csrc = sorted(f for f in os.listdir(out) if f.endswith(".cpp"))
@@ -235,7 +250,7 @@ def python_scenario(args):
     exp_obs = ["OBS ids -> (5, 9)", "OBS add -> (8, 13, 4)", "OBS twice -> (42, 4)", "OBS rename -> (None, None)", "OBS names -> ('', 'bee')",
                "OBS find -> (100, 101)", "OBS ref -> (None, 'zed', 'zed', 101)", "OBS new -> (7, 8, True)", "OBS color -> (3, 4, 0)", "OBS over -> (None, None)", "OBS dflt -> (32, 34, 35, 62)",
                "OBS tmpl -> (42, 2.5)", "OBS weigh -> (7.5, 1.5)", "OBS order -> (None, None)", "OBS ns -> 2", "OBS dims -> (%r, %r, %r, %r, %r)" % (list(range(100, 109)), list(range(100, 108)), list(range(200, 208)), list(range(200, 209)), [100, 101]),
-               "OBS total -> (6, 3.5, 6.5, 0.5, 0)", "OBS scale -> ((15, 8), (10, 7), (12, 7), 6)", "OBS tally -> (106, 16, 104, 10)", "OBS filltext -> 'cap=20'", "OBS rec -> (2, 7, 1.5, 3.0, 1, 1.0)", "OBS over-kw -> (None, None, 3)", "OBS bad-add raises TypeError/ValueError",
+               "OBS total -> (6, 3.5, 6.5, 0.5, 0)", "OBS scale -> ((15, 8), (10, 7), (12, 7), 6)", "OBS tally -> (106, 16, 104, 10)", "OBS filltext -> 'cap=20'", "OBS rec -> (2, 7, 1.5, 3.0, 1, 1.0)", "OBS ser -> (3, [1, 2, 3], 6, None, [11, 12, 13], 36)", "OBS ser-set -> ([3, 3, 3, 3], 12)", "OBS over-kw -> (None, None, 3)", "OBS bad-add raises TypeError/ValueError",
                "OBS bad-ctor raises TypeError/ValueError", "OBS bad-over raises TypeError/ValueError", "OBS bad-extra raises TypeError/ValueError",
                "OBS bad-kw raises TypeError/ValueError"]
     exp_recv = ["RECV Cls::Cls id=5", "RECV Cls::Cls id=9", "RECV Cls::add this=5 x=3", "RECV Cls::add this=9 x=4", "RECV Cls::add this=5 x=-1",
@@ -252,6 +267,7 @@ def python_scenario(args):
                 "RECV ns::nsf a=1", "RECV halo n=1 m=3", "RECV halo n=2 m=2", "RECV nodes n=1 m=3", "RECV nodes n=2 m=2", "RECV halo n=0 m=1", "RECV total(int) n=3", "RECV total(double) n=2", "RECV total(double) n=3", "RECV total(double) n=2", "RECV total(int) n=0",
                 "RECV scale(int) n=5 factor=3", "RECV scale(int) n=5 factor=2", "RECV scale(int) n=4 factor=3", "RECV scale(str) name=2:[ab] a=1",
                 "RECV tally(arr) n=3 bias=100", "RECV tally(arr) n=3 bias=10", "RECV tally(arr) n=1 bias=100", "RECV tally(4) a=1", "RECV fillText cap=20", "RECV recWeight id=2 serial=7 w=" + A.rnd(D, 1.5), "RECV recWeight id=4 serial=5 w=" + A.rnd(D, 0.5),
+                "RECV serSum n=3", "RECV serShift n=3 step=10", "RECV serSum n=3", "RECV serShift n=4 step=2", "RECV serSum n=4",
                 "RECV over(int) a=7", "RECV over(double) a=" + A.rnd(D, 0.5), "RECV tmpl<int> a=2"]
     errs = []
     if rc != 0:
